@@ -72,6 +72,7 @@ type obs struct {
 	tree    []string // sorted "d:path" / "f:path:hexdata", work dir without .tmp
 	file    []byte   // script file bytes afterwards
 	note    string   // crash value etc. (not compared)
+	ioErr   string   // the harness could not set up / read back its own files (not a property of the code under test)
 }
 
 func (o obs) String(before []byte) string {
@@ -259,15 +260,28 @@ func readTree(dir string) []string {
 	return out
 }
 
-// runReal runs one script file through testscript.RunT.
+// runReal runs one script file through testscript.RunT (again, when the harness's own file
+// handling hit an I/O error).
 func (r *runner) runReal(fl flags, file []byte) obs {
+	var o obs
+	for try := 0; try < 3; try++ {
+		if o = r.runRealOnce(fl, file); o.ioErr == "" {
+			break
+		}
+	}
+	return o
+}
+
+func (r *runner) runRealOnce(fl flags, file []byte) obs {
 	dir := r.newDir()
 	script := filepath.Join(dir, "s.txt")
 	if err := os.WriteFile(script, file, 0o666); err != nil {
-		panic(err)
+		return obs{ioErr: err.Error()}
 	}
 	wroot := filepath.Join(dir, "work")
-	os.MkdirAll(wroot, 0o777)
+	if err := os.MkdirAll(wroot, 0o777); err != nil {
+		return obs{ioErr: err.Error()}
+	}
 	var probes []string
 	p := testscript.Params{
 		Files:               []string{script},
@@ -303,7 +317,13 @@ func (r *runner) runReal(fl flags, file []byte) obs {
 		}
 	}
 	o.tree = readTree(filepath.Join(wroot, "script-s"))
-	o.file, _ = os.ReadFile(script)
+	var err error
+	if o.file, err = os.ReadFile(script); err != nil {
+		o.ioErr = err.Error()
+	}
+	if _, err := os.Stat(wroot); err != nil {
+		o.ioErr = err.Error()
+	}
 	os.RemoveAll(dir)
 	return o
 }
@@ -464,7 +484,14 @@ func runTsRun(tier string, seed int64, model string, replay string) *corr.Result
 	}
 
 	var cases []*tcase
-	if replay != "" {
+	var replayGroup []int
+	if strings.HasPrefix(replay, "cli-multi ") {
+		// several scripts in one cmd/testscript invocation
+		for _, h := range strings.Split(strings.TrimPrefix(replay, "cli-multi "), ",") {
+			replayGroup = append(replayGroup, len(cases))
+			cases = append(cases, &tcase{kind: "c01", file: corr.Unhx(h), recipe: "replay"})
+		}
+	} else if replay != "" {
 		c := decodeInput(replay)
 		if c == nil {
 			res.Observations = append(res.Observations, "unreadable replay input")
@@ -474,7 +501,7 @@ func runTsRun(tier string, seed int64, model string, replay string) *corr.Result
 	} else {
 		n01, n16 := 1500, 800
 		if tier == "thorough" {
-			n01, n16 = 40000, 15000
+			n01, n16 = 100000, 30000
 		}
 		cases = append(cases, corpusCases()...)
 		for i := 0; i < n01; i++ {
@@ -531,7 +558,17 @@ func runTsRun(tier string, seed int64, model string, replay string) *corr.Result
 	// ---- compare
 	seen := map[string]bool{}
 	nontrivial := 0
+	ioErrs := 0
 	for i, c := range cases {
+		if impl[i].ioErr != "" || (rerun[i] != nil && rerun[i].ioErr != "") || cliExit[i] == -1 {
+			// the harness's own temp files failed (disk, descriptor limits, a cleaner): not evidence either way
+			ioErrs++
+			res.Distribution["harness-io-error"]++
+			if ioErrs <= 3 {
+				res.Observations = append(res.Observations, "harness I/O error, case skipped: "+impl[i].ioErr)
+			}
+			continue
+		}
 		in := encodeInput(c)
 		key := c.fl.String() + " " + string(c.file)
 		first := !seen[key]
@@ -562,8 +599,10 @@ func runTsRun(tier string, seed int64, model string, replay string) *corr.Result
 
 		// oracle 1 (C01): the generator's expectation
 		if c.exp != nil {
+			// a C16 case that goes wrong without touching the script file differently is a verdict
+			// (C01) matter; the C16-specific clauses are checked by c16Oracle below
 			prop := "C01"
-			if c.kind == "c16" {
+			if c.kind == "c16" && !bytes.Equal(c.exp.file, impl[i].file) {
 				prop = "C16"
 			}
 			res.OracleChecked[prop]++
@@ -600,9 +639,19 @@ func runTsRun(tier string, seed int64, model string, replay string) *corr.Result
 		}
 	}
 
+	if ioErrs*50 > len(cases) {
+		res.Disagree("<harness>", fmt.Sprintf("%d of %d cases hit I/O errors in the harness's temp dir", ioErrs, len(cases)), "")
+	}
+
 	// ---- several scripts in one cmd/testscript invocation
 	if replay == "" {
-		multiCLI(res, r, rng, cases, impl, model)
+		groups := 60
+		if tier == "thorough" {
+			groups = 600
+		}
+		multiCLI(res, r, rng, cases, impl, model, groups, nil)
+	} else if replayGroup != nil {
+		multiCLI(res, r, rng, cases, impl, model, 1, replayGroup)
 	}
 
 	res.Evaluations = len(cases)
@@ -625,19 +674,21 @@ func lastLines(s string, n int) string {
 }
 
 // multiCLI: groups of builtin-only scripts in one invocation; exit 0 iff none failed.
-func multiCLI(res *corr.Result, r *runner, rng *rand.Rand, cases []*tcase, impl []obs, model string) {
+func multiCLI(res *corr.Result, r *runner, rng *rand.Rand, cases []*tcase, impl []obs, model string, groups int, fixed []int) {
 	var idx []int
 	for i, c := range cases {
-		if c.fl.cliable() && !c.fl.update && !c.fl.cont && impl[i].verdict != "crash" {
+		if c.fl.cliable() && !c.fl.update && !c.fl.cont && impl[i].verdict != "crash" && impl[i].ioErr == "" {
 			idx = append(idx, i)
 		}
 	}
-	if len(idx) < 4 {
-		return
-	}
-	groups := 60
 	type grp struct{ members []int }
 	var gs []grp
+	if fixed != nil {
+		gs = append(gs, grp{fixed})
+		groups = 0
+	} else if len(idx) < 4 {
+		return
+	}
 	for g := 0; g < groups; g++ {
 		k := 2 + rng.Intn(3)
 		var m []int
@@ -674,6 +725,10 @@ func multiCLI(res *corr.Result, r *runner, rng *rand.Rand, cases []*tcase, impl 
 	}
 	wg.Wait()
 	for gi, g := range gs {
+		if codes[gi] == -1 {
+			res.Distribution["harness-io-error"]++
+			continue
+		}
 		res.Distribution["cli-multi"]++
 		if got := fmt.Sprintf("exit=%d", codes[gi]); got != out[gi] {
 			res.Disagree(reqs[gi], got, out[gi])
@@ -704,7 +759,7 @@ func corpusCases() []*tcase {
 		}
 		return &tcase{kind: kind, fl: fl, file: []byte(file), exp: &exp, recipe: recipe, tags: []string{"nontrivial", "corpus"}}
 	}
-	return []*tcase{
+	return append(edgeCases(),
 		// fixed 45bab20: skip after a failed line hid the failure
 		mk("c01", flags{cont: true}, "exists nothing\nskip\n", obs{verdict: "fail", line: 1}, "regression: line 1 fails, line 2 skip, ContinueOnError"),
 		mk("c01", flags{}, "exists nothing\nskip\n", obs{verdict: "fail", line: 1}, "line 1 fails, no ContinueOnError"),
@@ -712,5 +767,5 @@ func corpusCases() []*tcase {
 		mk("c01", flags{cont: true}, "# phase\nexists nothing\n\n# next\nstop done\nexists nothing\n", obs{verdict: "fail", line: 2}, "failure, then stop, ContinueOnError"),
 		// fixed 26d8675: an update that cannot be quoted escaped as panic(failNow)
 		mk("c01", flags{update: true, customCmds: true}, "put out nonl a '-- x --'\ncmp stdout g\n-- g --\nx\n", obs{verdict: "fail", line: 2, tree: []string{"f:" + corr.Hx([]byte("g")) + ":" + corr.Hx([]byte("x\n"))}}, "regression: unquotable update content"),
-	}
+	)
 }
